@@ -202,7 +202,7 @@ struct Gen {
     std::string pers = g.chance(0.5) ? "" : (g.chance(0.6) ? ":p" : fmt(":%d", (int)g.range(2, 6)));
     if (prop == "C12" && g.chance(thorough ? 0.8 : 0.5)) {   // per-scenario enumeration of the fault position over every callback of the target op
       int oi = 0, eop = 0; for (size_t q = 0; q < p.recs.size(); q++) if (p.recs[q].type == "op") { if (q == target) eop = oi; oi++; }
-      p.recs[0].set("enum", std::string(kinds[g.below(5)]) + pers).set("eop", eop).set("ecap", thorough ? 600 : 120);
+      p.recs[0].set("enum", std::string(kinds[g.below(5)]) + pers).set("eop", eop).set("ecap", thorough ? 600 : 120).set("ebudget", thorough ? 20000000 : 1500000);
     } else
     p.recs[target].set("fault", fmt("%s@%d%s", kinds[g.below(5)], (int)g.below(g.chance(0.7) ? 12 : 120), pers.c_str()));
     op("heal");
